@@ -566,6 +566,122 @@ type gChecker struct {
 	seenSig        map[string]bool
 	openMax        int
 	firstDeferAt   map[*gInst]int
+	subtreeMemo    map[*gInst][]*gInst
+}
+
+// ownSubtree: the instances whose activity belongs to a call of instance c and to nothing else -- c, what it
+// reaches through deps, call entries and defers without passing a deduplicated instance, and every deduplicated
+// instance all of whose references (root calls included) lie inside that set (so only this subtree can have
+// started it, and every reference to it waits for it). A task call returns only when all of that is over:
+// dependencies are joined, waiters of a shared execution wait for its end.
+func (c *gChecker) ownSubtree(root *gInst) []*gInst {
+	if v, ok := c.subtreeMemo[root]; ok {
+		return v
+	}
+	in := map[*gInst]bool{}
+	var walk func(x *gInst)
+	walk = func(x *gInst) {
+		if in[x] {
+			return
+		}
+		in[x] = true
+		for _, d := range x.Deps {
+			if !d.Shared {
+				walk(d)
+			}
+		}
+		for _, e := range x.Ents {
+			if e.Callee != nil && !e.Callee.Shared {
+				walk(e.Callee)
+			}
+		}
+	}
+	if !root.Shared {
+		walk(root)
+	}
+	refs := map[*gInst][]*gInst{} // shared instance -> instances referring to it
+	rootRef := map[*gInst]bool{}
+	for _, r := range c.m.roots {
+		rootRef[r] = true
+	}
+	for _, x := range c.m.order {
+		for _, d := range x.Deps {
+			if d.Shared {
+				refs[d] = append(refs[d], x)
+			}
+		}
+		for _, e := range x.Ents {
+			if e.Callee != nil && e.Callee.Shared {
+				refs[e.Callee] = append(refs[e.Callee], x)
+			}
+		}
+	}
+	for changed := true; changed; {
+		changed = false
+		for _, x := range c.m.order {
+			if !x.Shared || in[x] || rootRef[x] || len(refs[x]) == 0 {
+				continue
+			}
+			all := true
+			for _, r := range refs[x] {
+				if !in[r] {
+					all = false
+				}
+			}
+			if all {
+				walk(x)
+				changed = true
+			}
+		}
+	}
+	var out []*gInst
+	for _, x := range c.m.order {
+		if in[x] {
+			out = append(out, x)
+		}
+	}
+	if c.subtreeMemo == nil {
+		c.subtreeMemo = map[*gInst][]*gInst{}
+	}
+	c.subtreeMemo[root] = out
+	return out
+}
+
+func ownLast(x *gInst) int {
+	v := -1
+	for _, s := range x.sSeq {
+		v = max(v, s)
+	}
+	for _, s := range x.eSeq {
+		v = max(v, s)
+	}
+	return v
+}
+
+// quiescentCalls: entry e of in runs at t, so every task-call entry of in that was entered before (for a normal
+// entry: the normal entries before it; for a deferred one: every normal entry) has returned -- whether it
+// succeeded, failed or was cancelled -- and nothing of its own subtree may still produce events.
+func (c *gChecker) quiescentCalls(in *gInst, e *gEnt, pos, t int, why string) bool {
+	ok := true
+	for i, x := range in.Ents {
+		if x.Defer || x.Kind != gCall || x == e || (!e.Defer && i >= pos) {
+			continue
+		}
+		if x.Callee.Shared {
+			continue // (covered by shared_callee_not_finished / call_returned_before_shared_callee_finished)
+		}
+		for _, y := range c.ownSubtree(x.Callee) {
+			if le := ownLast(y); le > t {
+				kind := "plain"
+				if y.Shared {
+					kind = "shared_exclusive"
+				}
+				c.add("C02", "call_returned_while_callee_subtree_active|"+kind, "%s: entry %s of %s ran at %d, so its call entry %s (%s) had returned, but %s, which belongs to that call alone, still produced an event at %d", why, e.Lab, in.P, t, x.Lab, x.Callee.P, y.P, le)
+				ok = false
+			}
+		}
+	}
+	return ok
 }
 
 func (c *gChecker) add(prop, sig, format string, a ...any) {
@@ -757,6 +873,9 @@ func (c *gChecker) entryEnabled(in *gInst, e *gEnt, t int, why string) bool {
 		}
 	}
 	if !c.chainOK(in, t) {
+		ok = false
+	}
+	if !c.quiescentCalls(in, e, pos, t, why) {
 		ok = false
 	}
 	return ok
